@@ -35,6 +35,15 @@ def point_spectrum(rng, f, d, kind):
             es = np.exp(-0.5 * ((f - fs) / 0.01) ** 2)
             es = es / max(np.trapezoid(es, f), 1e-300) * (hs / 4) ** 2
             E = E + es[:, None] * spreading(d, rng.uniform(0, 360), 20)[None, :]
+    elif kind == "veering":
+        # a wind sea under a veering wind: the mean direction turns from the peak to the highest frequencies
+        # (not mirror-symmetric: the stress direction differs from the dissipation-weighted wave direction)
+        fp = rng.uniform(0.12, 0.2)
+        alpha = rng.choice([0.012, 0.016, 0.02])
+        turn = rng.choice([-40.0, -25.0, 25.0, 40.0])
+        e1 = jonswap(f, fp, alpha, 3.3)
+        sp_ = rng.choice([2, 4])
+        E = np.array([e1[i] * spreading(d, th0 + turn * min(max((f[i] - fp) / (f[-1] - fp), 0.0), 1.0), sp_) for i in range(len(f))])
     elif kind == "random":
         E = np.array([[rng.random() ** 3 * 0.02 for _ in d] for _ in f]) * (f[:, None] / 0.1) ** -4.0
         mask = np.array([[rng.random() < 0.25 for _ in d] for _ in f])
